@@ -196,3 +196,13 @@ impl Stream for ActiveRequests {
         }
     }
 }
+
+#[cfg(feature = "verif-hooks")]
+impl ActiveRequests {
+    /// Read-only view of all active requests (verification hook).
+    pub(super) fn verif_all(&self) -> impl Iterator<Item = (&NodeAddress, &RequestCall)> {
+        self.active_requests_mapping
+            .iter()
+            .flat_map(|(a, v)| v.iter().map(move |r| (a, r)))
+    }
+}
